@@ -1,4 +1,5 @@
 import Adsb.Ui
+import Adsb.App
 import Adsb.Theorems.C13
 /-! # C17 — no operator action crashes radar -/
 
@@ -339,5 +340,71 @@ theorem exit_restores_terminal (waitKeys : List Key) (connects : Bool) (its : Li
 theorem quit_while_waiting (waitKeys : List Key) (connects : Bool) (its : List Iter) (disc : Bool) (h : waitKeys.any waitQuit = true) :
     mainRun {} waitKeys connects its disc = .ok (some {}) := by
   unfold mainRun; simp only [h, if_true]; rfl
+
+/-! ## the Coverage tab -/
+
+/-- every counter stays a `u32`, whatever traffic is fed for however long -/
+theorem cover_counters_bounded (cells : List Cell) (key : Int × Int) (icao : Nat) (h : ∀ c ∈ cells, c.seen ≤ u32Max) :
+    ∀ c ∈ coverOne cells key icao, c.seen ≤ u32Max := by
+  induction cells with
+  | nil => intro c hc; simp [coverOne] at hc; subst hc; simp
+  | cons a as ih =>
+    intro c hc
+    unfold coverOne at hc
+    split at hc
+    · rcases List.mem_cons.mp hc with rfl | hm
+      · exact Nat.min_le_right _ _
+      · exact h c (List.mem_cons_of_mem _ hm)
+    · split at hc
+      · exact h c hc
+      · rcases List.mem_cons.mp hc with rfl | hm
+        · exact h _ List.mem_cons_self
+        · exact ih (fun c hc => h c (List.mem_cons_of_mem _ hc)) c hm
+
+theorem cover_pass_bounded (ps : List ((Int × Int) × Nat)) : ∀ (cells : List Cell), (∀ c ∈ cells, c.seen ≤ u32Max) →
+    ∀ c ∈ coverPass cells ps, c.seen ≤ u32Max := by
+  induction ps with
+  | nil => intro cells h; simpa [coverPass] using h
+  | cons p ps ih =>
+    intro cells h
+    simp only [coverPass, List.foldl_cons]
+    exact ih _ (cover_counters_bounded cells p.1 p.2 h)
+
+theorem cap_eq_min (n : Nat) : (if n > 255 then 255 else n) = min n 255 := by
+  by_cases h : n > 255
+  · rw [if_pos h]; omega
+  · rw [if_neg h]; omega
+
+/-- **drawing a cell never panics and yields a colour component in 100..255**, for every counter value -/
+theorem cover_colour_total (seen : Nat) : ∃ c, cellColour seen = .ok c ∧ 100 ≤ c ∧ c ≤ 255 := by
+  unfold cellColour
+  refine ⟨_, rfl, ?_, ?_⟩ <;> simp only [cap_eq_min] <;> omega
+
+/-- brighter for every further aircraft, up to white -/
+theorem cover_colour_mono (a b : Nat) (h : a ≤ b) : ∀ ca cb, cellColour a = .ok ca → cellColour b = .ok cb → ca ≤ cb := by
+  intro ca cb ha hb
+  unfold cellColour at ha hb
+  injection ha with ha; injection hb with hb
+  subst ha; subst hb
+  simp only [cap_eq_min]
+  omega
+
+/-- the arithmetic before the repair agreed with today's below the overflow point ... -/
+theorem cover_colour_old_agrees (seen : Nat) (h : seen ≤ 85899343) : cellColourOld seen = cellColour seen := by
+  unfold cellColourOld cellColour
+  have e1 : ¬ (seen * 50 > 4294967295) := by omega
+  have e2 : ¬ (100 + seen * 50 > 4294967295) := by omega
+  have e3 : min (min (seen * 50) 4294967295 + 100) 4294967295 = 100 + seen * 50 := by omega
+  simp only [if_neg e1, if_neg e2, e3]
+
+/-- ... and panicked at it: the finding repaired by /repo commit 3e38a51 (reproduced on the real functions with two aircraft in one cell
+and 43 000 000 passes of `populate_coverage`, see /verif/findings/coverage_overflow) -/
+theorem cover_colour_old_panics : cellColourOld 85899344 = .panic "coverage.rs: attempt to add with overflow"
+    ∧ cellColourOld 85899346 = .panic "coverage.rs: attempt to multiply with overflow" := ⟨rfl, rfl⟩
+
+/-- two aircraft in one cell: the counter grows by two per pass (why the overflow point is reachable at all) -/
+example : ((coverPass [{ key := (3910, -7690), seen := 0, icao := 1 }] [((3910, -7690), 1), ((3910, -7690), 2)]).map (·.seen),
+           (coverPass (coverPass [{ key := (3910, -7690), seen := 0, icao := 1 }] [((3910, -7690), 1), ((3910, -7690), 2)])
+              [((3910, -7690), 1), ((3910, -7690), 2)]).map (·.seen)) = ([1], [3]) := by decide
 
 end Adsb.C17
